@@ -76,8 +76,9 @@ def selRanges (f : Bytes) (secs : List ESection) (syms : List Symbol) (k : Strin
      | some s => if ro.sh.addr ≤ s.value then [(ro.sh.off + (s.value - ro.sh.addr), 64)] else [])
 
 /-- the ranges a load **by name** reads: headers, section-name table, symbol table and its strings,
-and — when the symbol table is readable and `k` is not empty — only `selRanges` of `.text` /
-`.rodata`; otherwise the whole of these sections -/
+and — when the symbol table is readable — only `selRanges` of `.text` / `.rodata` for the name
+(for the empty name: of the single kernel symbol; nothing when there are several; the whole
+sections when there is none); the whole of these sections when `Symbols()` fails -/
 def namedRanges (f : Bytes) (k : String) : List (Nat × Nat) :=
   hdrRanges f ++
   match parseHeaders f with
@@ -90,7 +91,13 @@ def namedRanges (f : Bytes) (k : String) : List (Nat × Nat) :=
      | .ok secs =>
        symRanges secs ++
        (match symbolsOf f secs with
-        | .ok syms => if k = "" then codeRanges secs else selRanges f secs syms k
+        | .ok syms =>
+          if k = "" then
+            match syms.filter (isKernelSym (sectionsOf f secs)) with
+            | [] => codeRanges secs
+            | [s] => selRanges f secs syms s.name
+            | _ => []
+          else selRanges f secs syms k
         | _ => codeRanges secs)
      | _ => [])
   | _ => []
@@ -257,6 +264,26 @@ contents, and the symbols -/
 def specView (sp : Spec) : View :=
   { sections := (allSecs sp).map (fun s => { name := strOf s.name, addr := s.addr, data := some s.data })
     symbols := some (specSyms sp) }
+
+/-! ### line protocol: `c13 wr` (the writer against an independent Go implementation of the layout) -/
+
+def wrBytes (t : String) : Bytes := if t = "e" then [] else hexToBytes t
+
+/-- `c13 wr <etype> <machine> <entry> <eflags> ; S <name> <type> <flags> <addr> <link> <data> ; … ;
+Y <name> <value> <size> <shndx> ; …` (numbers decimal, names and data hex or `e`): the hex of
+`writeElf spec`, or `illformed` when `specWF` fails -/
+def handleWr (a b c d : String) (parts : List String) : String :=
+  let num (t : String) : Nat := t.toNat?.getD 0
+  let (secs, syms) := parts.foldl (fun (acc : List WSec × List WSym) p =>
+    match Util.words p with
+    | ["S", n, t, fl, ad, lk, dt] =>
+      ({ name := wrBytes n, type := num t, flags := num fl, addr := num ad, link := num lk, data := wrBytes dt } :: acc.1, acc.2)
+    | ["Y", n, v, sz, sh] =>
+      (acc.1, { name := wrBytes n, value := num v, size := num sz, shndx := num sh } :: acc.2)
+    | _ => acc) ([], [])
+  let sp : Spec := { etype := num a, machine := num b, entry := num c, eflags := num d,
+                     secs := secs.reverse, syms := syms.reverse }
+  if specWF sp then Util.bytesHex ((writeElf sp).map (·.toNat)) else "illformed"
 
 end Elf
 end C13
